@@ -30,6 +30,8 @@ let parse_op name args =
   | "staging" -> OStaging | "release" -> ORelease | "cleanup" -> OCleanup
   | "len" -> OLen | "size" -> OSize
   | "storestep" -> OStoreStep (nn (a 0))
+  | "completeexist" -> OCompleteExist (key_of (a 0))
+  | "tmstart" -> OTmStart | "end" -> OEnd | "tm" -> OTm
   | _ -> failwith ("unknown op " ^ name)
 
 let fmt_resp name r =
@@ -42,6 +44,9 @@ let fmt_resp name r =
       (if t then "1" else "0") ^ "\t" ^ sn status ^ "\t" ^
       (match started with Some (g, b) when t -> sn g ^ ":" ^ fmt_buf b | _ -> "-")
   | RWait ok -> if ok then "ok" else "err"
+  | RErrExist (_, v) ->
+      let x = "X:" ^ (match v with None -> "_" | Some b -> hexv b) in
+      if name = "flush" then "0\t1\t-\t" ^ x else "err\t" ^ x
   | RNum x -> sn x
 
 let rec split_arrow acc l = match l with
